@@ -20,6 +20,22 @@ pub(crate) fn strip_module_path(rust_type: &str) -> &str {
     }
 }
 
+/// `rust_type` with the module path removed from every name in it, for the arguments of a
+/// generic type the resolver does not know: `Page<crate::models::Item>` -> `Page<Item>`
+fn strip_all_module_paths(rust_type: &str) -> String {
+    let mut out = String::new();
+    let mut rest = rust_type;
+    while let Some(pos) = rest.find("::") {
+        out.push_str(&rest[..pos]);
+        while out.ends_with(|c: char| c.is_alphanumeric() || c == '_') {
+            out.pop();
+        }
+        rest = &rest[pos + 2..];
+    }
+    out.push_str(rest);
+    out
+}
+
 /// Byte position of the first comma of `inner` that is not nested inside `<..>`, `(..)` or
 /// `[..]`, i.e. the comma that separates the first type of a list from the rest
 pub(crate) fn find_top_level_comma(inner: &str) -> Option<usize> {
@@ -267,8 +283,11 @@ impl TypeResolver {
             return TypeStructure::Primitive(target_primitive);
         }
 
-        // Otherwise, it's a custom type
-        TypeStructure::Custom(cleaned.to_string())
+        // Otherwise, it's a custom type (a mapped one keeps the spelling of its mapping key)
+        if self.type_mappings.contains_key(cleaned) {
+            return TypeStructure::Custom(cleaned.to_string());
+        }
+        TypeStructure::Custom(strip_all_module_paths(cleaned))
     }
 
     /// Map Rust primitive types to target language primitives
